@@ -7,5 +7,5 @@ def run(ctx):
     ctx.rule = ("random programs (all profiles, failed operations included) over 1..4 nodes; after every operation the object graph of all "
                 "virtualNode instances is walked (id()-based): backing bijection, positions 0..k-1 per register, id uniqueness, numRegs, and the "
                 "population delta of the operation; the same dump is compared with the Coq model; distinct = distinct (capacities, operation, dump)")
-    netprop.run_property(ctx, "C02", ["mixed", "merge", "capacity", "stale", "refuse"], 1500 if t else 150, 30 if t else 24,
-                         scenarios=scen.placement_cases() + scen.forwarding() + scen.stale(), own_props=["C02"])
+    netprop.run_property(ctx, "C02", ["mixed", "merge", "capacity", "stale", "refuse", "registers"], 1500 if t else 150, 30 if t else 24,
+                         scenarios=scen.placement_cases() + scen.forwarding() + scen.stale() + scen.register_api(), own_props=["C02"])
